@@ -643,6 +643,22 @@ def gen_C10(rng, tier, changed):
                 ops.append(op('swap', 0, 3, rng.randint(-9, 9), rng.randint(-9, 9), rng.choice([0, 3]), rng.randint(-3, 3) % max(1, r + 1), rng.randint(0, c)))
             ops.append(op('swap', 0, 4, 0, 0, 4, 0, 0, rows=[[0, UMAX], [0, UMAX], [max(0, r - 1), UMAX], [max(0, c - 1), UMAX]]))
             cases.append(Case(f'C10-e{r}x{c}o{order}', ops, 'tr'))
+    # zero-sized elements, up to usize::MAX of them: every valid pair succeeds (finding F5: the strided loop used to overflow)
+    kk = 0
+    for (r, c) in [(1, UMAX), (UMAX, 1), (2, IMAX), (IMAX, 2), (3, UMAX // 3), (UMAX // 3, 3), (1, IMAX + 2), (2**32, 2**32 - 1), (5, 7)]:
+        for order in (0, 1):
+            for which in (0, 1):
+                ext = r if which == 0 else c
+                for (a, b) in [(0, 0), (0, ext - 1), (ext - 1, 0), (ext - 1, ext - 1), (0, 1 % ext), (ext // 2, ext - 1), (0, ext), (ext, 0), (UMAX, UMAX)]:
+                    want = '()' if a < ext and b < ext else 'Err(IndexOutOfBounds)'
+                    # work done by a successful call: the strided loop runs `major` times, the contiguous swap covers `minor` elements
+                    major, minor = (r, c) if order == 0 else (c, r)
+                    strided = (which == 1) == (order == 0)
+                    work = major if strided else (0 if a == b else minor)
+                    if want == '()' and work > 4096:
+                        continue
+                    cases.append(KCase(f'C10-z{kk}', 'zst_swap', [which, r, c, order, a, b], meta=dict(want=want, no_model=True)))
+                    kk += 1
     return cases
 
 
